@@ -292,7 +292,9 @@ def run_property(prop, tier, seed, only=None, keep=False, jobs=None, replays_dir
     reg = load_contracts()
     from pyvc import verify, replay
     thms = [t for t in reg if prop in t.props and (only is None or any(re.search(o, t.name) for o in only))]
-    evidence_path = os.path.join(os.environ.get("VERIF_EVIDENCE_DIR") or os.path.join(VERIF, "evidence"), f"{prop}.json")
+    # a run restricted with --only is a partial record: it never overwrites the property's evidence file
+    evidence_path = os.path.join(os.environ.get("VERIF_EVIDENCE_DIR") or os.path.join(VERIF, "evidence"),
+                                 f"{prop}.json" if only is None else f"{prop}.only.json")
     replays_dir = replays_dir or os.path.join(os.environ.get("VERIF_REPLAYS_DIR") or os.path.join(VERIF, "replays"), prop)
     if os.path.isdir(replays_dir):
         shutil.rmtree(replays_dir)
